@@ -200,6 +200,12 @@ class Runner:
                     d.on('*', self._mk_catchall(ns), ns, co)
             elif style == 'class':
                 self.sio.register_namespace(self._mk_class(ns))
+            elif style == 'events_only':
+                # handlers for the application's events only: connects and
+                # disconnects of this namespace are handled elsewhere (under
+                # the catch-all namespace) or not at all
+                for ev in handled:
+                    d.on(ev, self._mk_event(ns, ev, 'func'), ns, co)
             elif style == 'none':
                 pass
         for gev in cfg.get('global_events') or []:
